@@ -207,7 +207,16 @@ func (d *Decoder) decodeSet(mem MemCache, msg *Message) error {
 		} else {
 			// Data set
 			var data []DecodedField
+			recordStart := d.reader.ReadCount()
 			if data, err = d.decodeData(tr); err == nil {
+				if d.reader.ReadCount() == recordStart {
+					// a record that consumes no octets would repeat forever
+					err = nonfatalError{fmt.Errorf("%s zero-length data record (ipfix template id# %d)",
+						d.raddr.String(),
+						setHeader.SetID,
+					)}
+					break
+				}
 				msg.DataSets = append(msg.DataSets, data)
 			} else {
 				switch err.(type) {
